@@ -468,7 +468,10 @@ type e2eCallRes struct {
 func runE2E(s E2EScript) (res vt.Result) {
 	closedBoth := false
 	if p := vt.Bubble(theT, func() { res = runE2EInBubble(s, &closedBoth) }); p != "" {
-		if closedBoth {
+		if closedBoth && strings.Contains(p, leftoverOnly) {
+			// goroutines (client or server side) left behind after both ends were closed: not C09's business
+			res.Class("teardown_leftover")
+		} else if closedBoth {
 			res.Failf("after the client session was closed and every server session was shut down the bubble did not end (goroutines left behind or a hang): %s", p)
 		} else {
 			res.Failf("the case did not reach its teardown: %s", p)
@@ -556,9 +559,9 @@ func runE2EInBubble(s E2EScript, closedBoth *bool) (res vt.Result) {
 		cs, e = client.Connect(context.Background(), ct, &mcp.ClientSessionOptions{ProtocolVersion: s.Version})
 		cerr <- e
 	}()
-	synctest.Wait()
-	select {
-	case e := <-cerr:
+	e, connected := awaitSetup(cerr)
+	switch {
+	case connected:
 		if e != nil {
 			// The standalone stream may be cut beyond the retry budget while Connect is still finishing:
 			// the session then breaks at once, which is a clean outcome. Anything else is a harness problem.
@@ -602,15 +605,13 @@ func runE2EInBubble(s E2EScript, closedBoth *bool) (res vt.Result) {
 	// logging notifications flow only after the client has set a level
 	lvl := make(chan error, 1)
 	go func() { lvl <- cs.SetLoggingLevel(context.Background(), &mcp.SetLoggingLevelParams{Level: "debug"}) }()
-	synctest.Wait()
 	lvlFailed := false
-	select {
-	case e := <-lvl:
+	if e, ok := awaitSetup(lvl); ok {
 		// the standalone stream may already have been cut beyond the retry budget: the session is then
 		// broken before the first call, which is a legitimate (clean) outcome; the calls will fail
 		lvlFailed = e != nil
-	default:
-		res.Failf("logging/setLevel did not return")
+	} else {
+		res.Failf("harness: logging/setLevel did not return")
 		teardown()
 		return
 	}
@@ -664,7 +665,11 @@ func runE2EInBubble(s E2EScript, closedBoth *bool) (res vt.Result) {
 				runaway = true
 				break
 			}
-			time.Sleep(time.Second)
+			if i < 600 {
+				time.Sleep(time.Second)
+			} else {
+				time.Sleep(10 * time.Second) // up to 1 virtual hour in all: the property fixes no time scale
+			}
 		}
 		g = h
 		if runaway {
@@ -857,7 +862,7 @@ func judgeE2E(res *vt.Result, s E2EScript, w *e2eWorld, results []e2eCallRes, tr
 		}
 		// (3) every call returns
 		if !r.returned {
-			res.Failf("call %d never returned (15 minutes of virtual time): stream history %s", k, describeE2E(w.calls[k]))
+			res.Failf("call %d never returned (1 hour of virtual time): stream history %s", k, describeE2E(w.calls[k]))
 			continue
 		}
 		var mine []string // this call's request-context notifications, in the order the client saw them
